@@ -5,7 +5,6 @@ CONSTANTS
   MaxFaults = 3
   Batches = 2
   Mutants = {"none"}
-  Dev = 0
 INIT Init
 NEXT Next
 INVARIANT TypeOK
